@@ -481,8 +481,19 @@ def _body_inner(ctx, case, env):
     # within 1e-5 of stoptol (the two runs may then legitimately stop at different iterations)
     arpack_guess = case["init"] == "nvecs" and any(R < n - 1 for n in shape)
     near = arpack_guess and stoptol > 0 and any(abs(d - stoptol) <= 1e-5 for d in deltas)
+    tied = False
+    if arpack_guess:
+        # exact or near ties among the R + 1 leading eigenvalues of a mode Gram matrix (integer-valued / block data produce
+        # exact ones) make the leading vectors themselves arbitrary: two separately computed guesses then differ
+        for n_ in range(N):
+            if R < shape[n_] - 1:
+                lam = np.sort(np.linalg.eigvalsh(H.unfold(A, n_) @ H.unfold(A, n_).T))[::-1]
+                if lam[0] <= 0 or np.min(lam[:R] - lam[1:R + 1]) <= 1e-6 * lam[0]:
+                    tied = True
     if near:
         ctx.label("arpack-guess-near-stop-threshold-not-compared")
+    elif tied:
+        ctx.label("arpack-guess-tied-eigenvalues-not-compared")
     else:
         ctx.check(ir == iters, "recorded-run-same-iteration-count", (ir, iters))
         ctx.check(H.sq(ref.den(Mr) - Dm) <= (1e-8 if arpack_guess else 1e-18) * S, "recorded-run-same-model")
